@@ -437,7 +437,7 @@ def c17_rule_s(draw, name, svcs):
 def c17_tables_s(draw):
     ns = draw(st.integers(0, 4))
     names = draw(st.permutations(C17_SVCS))[:ns]
-    services = [[n, draw(st.sampled_from(proto.PROTOCOLS))] for n in names]
+    services = [[n, draw(st.sampled_from(list(proto.PROTOCOLS) * 3 + ["logon", "combine"]))] for n in names]
     nr = draw(st.integers(0, 4))
     rn = draw(st.permutations(C17_RULES))[:nr]
     rules = [draw(c17_rule_s(n, names)) for n in rn]
@@ -478,7 +478,8 @@ def apply_edit(draw, services, rules, force=None):
         services.pop(draw(st.integers(0, len(services) - 1)))
     elif kind == "proto_inplace" and services:
         s = services[draw(st.integers(0, len(services) - 1))]
-        s[1] = draw(st.sampled_from([p for p in proto.PROTOCOLS if p != s[1]]))
+        # (a misspelt type is legal: the entry is ignored until an edit corrects it)
+        s[1] = draw(st.sampled_from([p for p in list(proto.PROTOCOLS) + ["logon", "drone-check"] if p != s[1]]))
     elif kind == "add_rule":
         free = [n for n in C17_RULES if n not in [r[0] for r in rules]]
         if free:
